@@ -618,6 +618,17 @@ impl World {
                 info.insert("packets".into(), json!(desc));
                 info.insert("from".into(), json!(rname));
             }
+            // more events in one step than the application's event stream holds (100): n TALK requests from one peer, nobody reads
+            // the stream until the step is over; what does not fit is lost, the stream itself must survive
+            "flood" => {
+                let n = op.get("n").and_then(|x| x.as_u64()).unwrap_or(120);
+                let pi = self.peer_idx("p40");
+                let from = self.sock("v4", pi);
+                for i in 0..n {
+                    let req = Request { id: RequestId(vec![0x77, (i / 200) as u8, (i % 200) as u8]), body: RequestBody::Talk { protocol: b"proto".to_vec(), request: b"flood".to_vec() } };
+                    let _ = self.hout.send(HandlerOut::Request(NodeAddress::new(from, self.peers[pi].id), Box::new(req))).await;
+                }
+            }
             "shutdown" => self.d.shutdown(),
             "poke" | "end" => {
                 let _ = self.hout.send(HandlerOut::UnrecognizedFrame(discv5::socket::UnrecognizedFrame { src_address: SocketAddr::new(IpAddr::V4(Ipv4Addr::LOCALHOST), 1), packet: vec![] })).await;
